@@ -263,6 +263,38 @@ func (w *world) presence(addr, typ, id string, self bool, status ...int) {
 	w.send(sb.String())
 }
 
+// malformedPayloads are muc#user payloads that are well-formed XML but not
+// what the typed decoder of the package expects: unknown affiliation / role
+// values, non-numeric status codes, wrong nesting, character data.
+var malformedPayloads = []string{
+	"<item affiliation='superuser' role='participant'/>",
+	"<item affiliation='member' role='ghost'/>",
+	"<item affiliation='member' role='participant'/><status code='x110'/>",
+	"<status code=''/>",
+	"<status code='99999999999999999999'/>",
+	"<item><item affiliation='owner' role='moderator'/></item><status><status code='110'/></status>",
+	"some text<item affiliation='member' role='none'>more text</item>",
+	"<item affiliation='' role='' jid='not a jid@@'/>",
+}
+
+// foreignMalformed sends a presence with such a payload from an address that
+// is not ours (another occupant, or a room nobody asked to join).
+func (w *world) foreignMalformed(addr, typ string, variant int) {
+	t := ""
+	if typ == "unavailable" {
+		t = " type='unavailable'"
+	}
+	w.log.add(event{Ev: "presence", Addr: addr, Typ: map[string]string{"": "available", "unavailable": "unavailable"}[typ], Text: "malformed"})
+	w.send("<presence from='" + addr + "' to='" + libAddr + "'" + t + "><x xmlns='" + nsMUCUser + "'>" + malformedPayloads[variant%len(malformedPayloads)] + "</x></presence>")
+}
+
+// errorPieces returns the room's error presence for a request in two parts:
+// the start tag, and everything after it.
+func errorPieces(addr, id, etype, cond string) (string, string) {
+	return fmt.Sprintf(`<presence from='%s' to='%s' id='%s' type='error'>`, addr, libAddr, id),
+		fmt.Sprintf(`<x xmlns='%s'/><error type='%s' by='%s'><%s xmlns='%s'/></error></presence>`, nsMUC, etype, strings.SplitN(addr, "/", 2)[0], cond, nsStanzas)
+}
+
 func (w *world) errorPresence(addr, id, etype, cond string) {
 	w.log.add(event{Ev: "presence", Addr: addr, Typ: "error", ID: id, Cond: cond, Self: true})
 	w.send(fmt.Sprintf(`<presence from='%s' to='%s' id='%s' type='error'><x xmlns='%s'/><error type='%s' by='%s'><%s xmlns='%s'/></error></presence>`,
